@@ -26,7 +26,8 @@ R1  argument roles of every geodesic call (T-ROLE): pyproj.Geod.inv takes
     site in a shared helper counts once per call site of the helper).
 R2  azimuth convention: every point handed out by `[i]`, location(), step() and
     great_circle() on the sample tracks carries an azimuth in [0, 360) - whether
-    the constructor of the point, a factory or each site reduces it (positive
+    the constructor of the point, a factory, each site or a property of the
+    point (the azimuth is read the way a caller reads it) reduces it (positive
     control: the sample tracks produce raw azimuths of both signs); no function
     outside the point class stores to the azimuth of a point.
 R3  step(a, b) is location(a + b), by value, for every sampled step that stays
@@ -45,14 +46,19 @@ R5  leg coherence: for every forward geodesic evaluated by a sampled query the
     that way-point's cumulative distance; inside the track that leg is the one
     containing the distance, beyond it the final leg.  Forward-geodesic calls
     of the ground track that no sampled query reaches are judged on their
-    argument expressions instead (index expressions compared as polynomials,
-    helpers judged at their call sites with the arguments substituted).
+    argument expressions instead (index expressions compared as polynomials
+    in which len() of the way-points / the index is one symbol n, len() of
+    the azimuths n - 1, and a negative constant index counts from that
+    length; helpers judged at their call sites with the arguments
+    substituted).  A coherent start point and azimuth with another distance
+    origin is reported as such (right great circle, wrong distance along it).
 R6  results are the reference: location(d) inside leg k is (component [0],
     component [1]) of fwd(way-point k, azimuth of leg k, d - cumulative distance
     of k) with the azimuth from there to way-point k+1 (component [0] of that
     inverse geodesic, or [1] of the reverse one); a step beyond the end is the
     same on the final leg with the azimuth from the last way-point to the point;
-    `[i]` is way-point i with the azimuth of leg i; total_distance /
+    `[i]` is way-point i with the azimuth of leg i (modulo 360: the range is
+    R2's statement); total_distance /
     waypoint_distance(i) are the running sums from 0 of the leg lengths
     (component [2] of the inverse geodesic over consecutive way-points);
     len() is the number of way-points given (so the stored way-points, the leg
@@ -284,10 +290,32 @@ def _bind_call(callee, call: ast.Call):
     return out
 
 
-def _idx_key(e: ast.AST, shift: int = 0) -> str:
-    """canonical text of an index expression (+ shift), so that `pos - 1`, `-1 + pos` and `pos - 2 + 1` agree"""
-    if shift:
-        e = ast.BinOp(left=e, op=ast.Add(), right=ast.Constant(shift))
+_N_WP = 'n_waypoints'
+
+
+class _Lengths(ast.NodeTransformer):
+    """the lengths of the three sequences of a track in terms of one symbol: way-points and cumulative index have one
+    entry per way-point, the azimuths one per leg"""
+
+    def visit_Call(self, n):
+        self.generic_visit(n)
+        if isinstance(n.func, ast.Name) and n.func.id == 'len' and len(n.args) == 1 and not n.keywords:
+            a = norm(n.args[0])
+            if a in ('self.waypoints', 'self.index', 'self'):
+                return ast.Name(id=_N_WP, ctx=ast.Load())
+            if a == 'self.azimuths':
+                return ast.BinOp(left=ast.Name(id=_N_WP, ctx=ast.Load()), op=ast.Sub(), right=ast.Constant(1))
+        return n
+
+
+def _idx_key(e: ast.AST, extra: int = 0) -> str:
+    """canonical text of the position an index expression names in a sequence of (number of way-points + extra)
+    entries, so that `pos - 1`, `-1 + pos` and `pos - 2 + 1` agree, and `-2`, `len(self.waypoints) - 2` and (in the
+    azimuths, which have one entry less) `-1` and `len(self.azimuths) - 1` agree"""
+    e = _Lengths().visit(copy.deepcopy(e))
+    c = _int_const(e)
+    if c is not None and c < 0:
+        e = ast.BinOp(left=ast.Name(id=_N_WP, ctx=ast.Load()), op=ast.Sub(), right=ast.Constant(-(extra + c)))
     try:
         return str(normal_form(e, {}))
     except Exception:
@@ -304,11 +332,9 @@ def _leg_of_slot(slot: int, e: ast.AST):
         return None
     if slot == 2:
         if isinstance(e, ast.Subscript) and norm(e.value) == 'self.azimuths':
-            i = e.slice
-            neg = isinstance(i, ast.UnaryOp) and isinstance(i.op, ast.USub) and isinstance(i.operand, ast.Constant)
             # azimuths has one entry per leg: counted from the end, entry -k belongs to the leg that starts at
             # waypoint -(k+1)
-            return _idx_key(i, -1 if neg else 0)
+            return _idx_key(e.slice, -1)
         return None
     if isinstance(e, ast.BinOp) and isinstance(e.op, ast.Sub) and isinstance(e.right, ast.Subscript) \
             and norm(e.right.value) == 'self.index':
@@ -1282,8 +1308,16 @@ def rule_queries(ctx, covered: set):
 
     def point(fi, what, res):
         """(lon, lat, azimuth) of a handed-out point; R2 on it"""
-        loc = res.f.get('location') if isinstance(res, _Obj) else None
-        az = res.f.get('azimuth') if isinstance(res, _Obj) else None
+        def read(nme):          # a field, or a property computed from the fields
+            world.quiet += 1
+            try:
+                return world.ev(ast.Attribute(value=ast.Name(id='_pt', ctx=ast.Load()), attr=nme, ctx=ast.Load()), {'_pt': res})
+            except (_Unk, _Raised):
+                return None
+            finally:
+                world.quiet -= 1
+        loc = read('location') if isinstance(res, _Obj) else None
+        az = read('azimuth') if isinstance(res, _Obj) else None
         if not isinstance(loc, _Obj) or not isinstance(loc.f.get(lonf), (int, float)) or not isinstance(loc.f.get(latf), (int, float)) \
                 or not isinstance(az, (int, float)) or isinstance(az, bool):
             ctx.undecided('C15-R2', fi, what, f'the value handed out is not a point with a location and an azimuth: {res!r:.80}')
@@ -1328,10 +1362,21 @@ def rule_queries(ctx, covered: set):
             good = {k for k in start & ka if _same(args[3], d - t.idx[k])}
             if not good:
                 origin = [j for j in range(t.n) if _same(d - args[3], t.idx[j])]
-                J('C15-R5', where, construct, False, '',
-                  f'{what}: starts at way-point {sorted(start)}, with the azimuth of leg {sorted(ka)}, by the distance beyond '
-                  f'{"way-point " + str(origin) if origin else "no way-point of the track"} — the forward geodesic starts at one '
-                  'way-point but uses the azimuth / distance origin of another leg: points leave the great circle', line)
+                head = (f'{what}: starts at way-point {sorted(start)}, with the azimuth of leg {sorted(ka)}, by the distance beyond '
+                        f'{"way-point " + str(origin) if origin else "no way-point of the track"}')
+                if start & ka:
+                    # start point and azimuth are one leg: the great circle is the right one, the distance along it is not
+                    k = min(start & ka)
+                    off = args[3] - (d - t.idx[k])
+                    J('C15-R5', where, construct, False, '',
+                      f'{head} — the distance handed to the forward geodesic is {args[3]:g}, the requested distance minus the '
+                      f'cumulative distance of the way-point the leg starts at is {d - t.idx[k]:g}: the distance is not measured '
+                      f'from the start of the leg, the point lies {abs(off):g} too {"far" if off > 0 else "near"} along its great circle',
+                      line)
+                else:
+                    J('C15-R5', where, construct, False, '',
+                      f'{head} — the forward geodesic starts at one way-point but uses the azimuth of another leg: points '
+                      'leave the great circle', line)
                 fine = False
                 continue
             if want is not None and want not in good:
@@ -1469,10 +1514,15 @@ def _sample_queries(ctx, world, gtc, loc_cls, lonf, latf, need, opt, init, query
                 if k_ != 'ret':
                     ctx.undecided('C15-R6', fi, f'[{i}]', f'way-point {i} of {n} cannot be read: {v}')
                 lon, lat, az = point(fi, f'[{i}]', v)
+                # (the range of the azimuth is R2's statement, made by point(): here the azimuth counts modulo 360)
+                here, owners = i in t.waypoints_at(lon, lat), t.az_owners(az)
                 J('C15-R6', fi, 'way-point i is handed out with the azimuth of the leg that starts there',
-                  i in t.waypoints_at(lon, lat) and _same(az, t.az[i] % 360.0), 'own location, own leg azimuth',
-                  f'[{i}] hands out way-point {sorted(t.waypoints_at(lon, lat))} with azimuth {az:g} (leg {sorted(t.az_owners(az))}): '
-                  'the stored way-points and the leg azimuths are not one sequence')
+                  here and i in owners, 'own location, own leg azimuth',
+                  (f'[{i}] hands out way-point {sorted(t.waypoints_at(lon, lat))} with azimuth {az:g} (leg {sorted(owners)}): '
+                   'the stored way-points and the leg azimuths are not one sequence') if owners or not here else
+                  (f'[{i}] hands out azimuth {az:g}, the azimuth of leg {i} is {t.az[i]:g} ({t.az[i] % 360.0:g} in [0, 360)): the '
+                   'azimuth is changed on its way from the inverse geodesic to the point by something that is not the '
+                   'reduction modulo 360'))
             # ---- location
             fi = need['location']
             for d in outside:
@@ -1575,9 +1625,10 @@ def _sample_queries(ctx, world, gtc, loc_cls, lonf, latf, need, opt, init, query
                     ctx.undecided('C15-R6', fi, 'great_circle(start, end)', f'cannot be evaluated in the model: {ex}')
                 lon, lat, az = point(fi, 'great_circle(start, end)[0]', first)
                 J('C15-R6', fi, 'great_circle(start, end) is the track from start to end',
-                  (tot is None or _same(tot, total)) and 0 in t.waypoints_at(lon, lat) and _same(az, t.az[0] % 360.0),
+                  (tot is None or _same(tot, total)) and 0 in t.waypoints_at(lon, lat) and 0 in t.az_owners(az),
                   'length is the geodesic distance between the end points, first point is the start',
-                  f'length {tot!r} (geodesic {total:g}), first way-point {sorted(t.waypoints_at(lon, lat))}')
+                  f'length {tot!r} (geodesic {total:g}), first way-point {sorted(t.waypoints_at(lon, lat))}, leaving with azimuth '
+                  f'{az:g} (azimuth of the geodesic from start to end: {t.az[0] % 360.0:g})')
 
 
 def rule_mission(ctx):
